@@ -910,6 +910,11 @@ func (t *State) verifyDAGTxs(blockHeight int64, txs []*pb.Transaction, isRootTx 
 		}
 		txid := string(tx.GetTxid())
 		if unconfirmToConfirm[txid] == false {
+			if tx.Coinbase && !t.isPlainCoinbaseTx(tx) {
+				// coinbase交易同样不经过下面的任何校验, 只允许凭空产生输出, 不得花费utxo或携带读写集/合约调用
+				t.log.Warn("dotx found invalid coinbase tx", "txid", fmt.Sprintf("%x", tx.Txid))
+				return ErrInvalidCoinbaseTx
+			}
 			if tx.Autogen && !tx.Coinbase && !t.isPlainAutogenTx(tx) {
 				// 非coinbase的autogen交易只能是各节点可自行重新生成并比对的定时交易, 否则会绕过下面的全部校验
 				t.log.Warn("dotx found invalid autogen tx", "txid", fmt.Sprintf("%x", tx.Txid))
@@ -942,6 +947,13 @@ func (t *State) verifyDAGTxs(blockHeight int64, txs []*pb.Transaction, isRootTx 
 	}
 
 	return nil
+}
+
+// isPlainCoinbaseTx tells whether a coinbase tx has the only shape nodes generate (award and root
+// tx): outputs out of nothing. It is exempt from signature and permission checks, so it must not
+// consume outputs, carry a read/write set or invoke contracts.
+func (t *State) isPlainCoinbaseTx(tx *pb.Transaction) bool {
+	return len(tx.TxInputs) == 0 && len(tx.TxInputsExt) == 0 && len(tx.TxOutputsExt) == 0 && len(tx.ContractRequests) == 0
 }
 
 // isPlainAutogenTx tells whether an auto-generated tx has the only shape nodes generate and can
